@@ -85,3 +85,80 @@ def check(rep: Report, what: str = "clean") -> None:
                     {"kind": "fault", "case": case, "fault": dict(k=k, p=0, kind="kbint"), "expect": "n/a"},
                 )
     rep.sample({"draw_program": {"params": progs[0]["c"], "ops": [o["op"] for o in progs[0]["prog"]]}})
+
+
+# ---------------------------------------------------------------------------------------
+# old API (BaseImage.draw): DrawOld.tla
+
+
+def _merged_program(ops, frame_strings):
+    """Merge consecutive writes, drop empty ones, abstract formatted frames to placeholders."""
+    prog, buf = [], []
+
+    def flush_buf():
+        if buf:
+            data = "".join(buf)
+            buf.clear()
+            for i, fs in enumerate(frame_strings):
+                data = data.replace(fs, chr(0xE000 + i))
+            prog.append({"op": "W", "toks": lexer.lex(data).toks})
+
+    for kind, data in ops:
+        if kind == "write":
+            if data:
+                buf.append(data)
+        else:
+            flush_buf()
+            prog.append({"op": KIND[kind], "toks": []})
+    flush_buf()
+    return prog
+
+
+def check_old(rep: Report) -> None:
+    from .env import stubs
+
+    res = tlc.run("MC_DrawOld", "MC_DrawOld.cfg", workers=4, timeout=600)
+    rep.add_tlc(res)
+    if res.violated:
+        rep.violation(f"design:DrawOld:{res.violated}", res.error_text[:2000], {"kind": "design"})
+        return
+    progs = res.tagged("PROG")
+    if len(progs) < 30:
+        raise tlc.MachineryError(f"only {len(progs)} PROG lines from MC_DrawOld")
+    for pr in progs:
+        c = pr["c"]
+        # lines = padded height: a 1-line image with pad_height = lines, bottom-aligned
+        case = dict(api="old", style="block", ident="other", frames=c["frames"], rw=2, rh=1,
+                    h_align="<", pad_width=2, v_align="_", pad_height=c["lines"], repeat=c["repeat"],
+                    cached=c["cached"], cols=8, rows=6, tty=c["tty"], r0=0, method=None, cell=None)
+        rep.evaluations += 1
+        rep.traces_validated += 1
+        r = drawkit.run_old(case)
+        # the formatted frames, exactly as draw() formats them (same padding arguments)
+        stubs.set_identity("other")
+        stubs.set_term(size=(8, 6))
+        from . import renderkit
+
+        cls = renderkit.image_class("block")
+        img = cls.from_file(r["path"], width=2, height=1)
+        frames = []
+        for i in range(c["frames"]):
+            if c["frames"] > 1:
+                img.seek(i)
+            frames.append(format(img, f"<2._{c['lines']}"))
+        img.close()
+        real = _merged_program(r["ops"], frames)
+        want = [{"op": o["op"], "toks": list(o["toks"])} for o in pr["prog"]]
+        rep.distinct.add(("prog-old", tuple(sorted(c.items()))))
+        if r["outcome"] != "ok" or real != want:
+            i = next((i for i, (a, b) in enumerate(zip(real, want)) if a != b), min(len(real), len(want)))
+            short = lambda o: (o["op"], [t["k"] + (str(t["n"]) if t["n"] >= 0 else "") for t in o["toks"]]) if o else None  # noqa: E731
+            rep.violation(
+                "old-api:draw:choreography",
+                f"operation #{i + 1} of the real BaseImage.draw() differs from the program specified in "
+                f"DrawOld.tla: real {short(real[i]) if i < len(real) else None}, specified "
+                f"{short(want[i]) if i < len(want) else None} ({len(real)} vs {len(want)} operations, "
+                f"outcome {r['outcome']}) for {c}",
+                {"kind": "draw", "case": dict(case, r0=0)},
+            )
+    rep.sample({"draw_old_program": {"params": progs[-1]["c"], "ops": [o["op"] for o in progs[-1]["prog"]]}})
